@@ -406,3 +406,11 @@ package clickhouse_planner
 //@ func NewSqlBitSetAnd [C17]
 //@   modifies nothing
 //@   ensures fresh(result) && len(result.clauses) == len(clauses)
+
+// by / without on the time-series-table path: a value row is joined with ONE labels row
+// of its series (the index keeps one row per day and series; with ClickHouse's default
+// ALL strictness a series registered on two days would be counted twice in the
+// aggregate above) - ANY LEFT, GLOBAL on a cluster.
+//@ func (*ByWithoutPlanner).processTSTable [C08]
+//@   flag checks=-index,-assert
+//@   at sql_select.NewJoin$ one-labels-row-per-series: arg0 == "ANY LEFT " || arg0 == "GLOBAL ANY LEFT "
